@@ -191,4 +191,4 @@ def run(ctx):
 
 def replay(case):
     h = Harness(case['config']['pool'])
-    hbfs.run_history(h, case['history'])
+    hbfs.replay_case(h, case)
